@@ -14,7 +14,7 @@ Require Import Aiuti.CaseLib Aiuti.FLock Aiuti.FLockSpec.
 Definition sobs := (result * list bool * N * nat * nat * list bool * nat)%type.
 
 Inductive case :=
-| CSeq (nT : nat) (cfg : list (bool * tmo)) (fl : list (skind * nat))
+| CSeq (nT : nat) (cfg : list (bool * tmo)) (fl : list (skind * nat * bool))
        (ops : list (tid * call)) (observed : list sobs) (kernel_mismatches : nat).
 
 Definition FUEL := 600.
@@ -33,7 +33,7 @@ Definition sobs_eqb (x y : sobs) : bool :=
 
 (* ---- the model's trace ------------------------------------------------------ *)
 
-Definition init_seq (nT : nat) (cfg : list (bool * tmo)) (fl : list (skind * nat)) : state :=
+Definition init_seq (nT : nat) (cfg : list (bool * tmo)) (fl : list (skind * nat * bool)) : state :=
   init (map (fun c => obj0 0 (fst c) (snd c)) cfg) (map (fun _ => thr0 0 []) (seq 0 nT)) fl.
 
 Definition probe (s : state) (t : tid) (o : oid) : state * bool :=
